@@ -819,6 +819,10 @@ func (r *UnitRun) execFor(st *State, s *ast.ForStmt, k func(*State)) {
 func (r *UnitRun) execRange(st *State, s *ast.RangeStmt, k func(*State)) {
 	ls, n := r.loopSpec(s)
 	x := r.evalExpr(st, s.X)
+	if x.K == KInt && s.Value == nil {
+		// range over an integer (Go 1.22): n iterations for n > 0, none otherwise; no element variable
+		x = Val{K: KSlice, S: &SliceVal{Arr: "rangeInt", Off: "0", Len: fmt.Sprintf("(ite (>= %s 0) %s 0)", x.T, x.T), ESrt: "Int"}, Go: x.Go}
+	}
 	if x.K != KSlice {
 		panic(toolLimit("range over non-slice"))
 	}
